@@ -530,6 +530,63 @@ def rule_g2(prog, chk):
     chk.floor("C03g2", n, 2)
 
 
+def rule_s(prog, chk):
+    """C03s - an in-place rescaling of a SYMMETRIC matrix visits each pair of variables once.  `setSill(icov, i, j, f(getSill(icov, i, j)))`
+    writes the cells (i,j) and (j,i) of the symmetric storage: inside a double loop where both i and j run over all the variables the
+    cross terms are transformed twice (Model::standardize divided every cross sill twice: [[.25,.2],[.2,.25]] became [[1,3.2],[3.2,1]],
+    which is not positive semi-definite)."""
+    SYMSET = {"setSill": "getSill", "setValue": "getValue"}
+    n = 0
+    for f in sorted(prog.funcs, key=lambda x: (x.file, x.line)):
+        if f.body is None:
+            continue
+        loops = {}
+        for L in f.walk():
+            if L["k"] == "For" and L["c"][1] is not None:
+                c = L["c"][1]
+                if c["k"] == "BinOp" and c.get("op") in ("<", "<=") and c["c"][0] is not None and c["c"][0]["k"] == "DeclRefExpr":
+                    loops[c["c"][0]["d"]] = show(c["c"][1])
+        if len(loops) < 2:
+            continue
+        for c in f.calls():
+            if c["k"] != "MCall":
+                continue
+            short = (c.get("callee") or "").split("::")[-1]
+            if short not in SYMSET or not (short == "setSill" or "Symmetric" in (c.get("cls") or "")):
+                continue
+            a = call_args(c)
+            idx = [x for x in a if x is not None and x["k"] == "DeclRefExpr" and x.get("d") in loops]
+            if len(idx) < 2:
+                continue
+            i1, i2 = idx[-2], idx[-1]
+
+            def has_get(e, depth=0):
+                if e is None or depth > 2:
+                    return False
+                for y in walk(e):
+                    if y["k"] == "MCall" and (y.get("callee") or "").split("::")[-1] == SYMSET[short]:
+                        ya = [show(z) for z in call_args(y) if z is not None]
+                        if show(i1) in ya and show(i2) in ya:
+                            return True
+                    if y["k"] == "DeclRefExpr" and y.get("dk") == "var" and y.get("d") not in loops:
+                        for z in f.walk():
+                            if z["k"] == "VarDecl" and z.get("d") == y["d"] and z.get("c") and has_get(z["c"][0], depth + 1):
+                                return True
+                return False
+            if not has_get(a[-1]):
+                continue
+            n += 1
+            full = loops[i1["d"]] == loops[i2["d"]]
+            if full:
+                chk.analysed(f)
+            chk.ob("C03s", "%s: the in-place update `%s(.., %s, %s, f(%s(..)))` of a symmetric matrix visits each pair once" % (
+                       f.name, short, i1["n"], i2["n"], SYMSET[short]), f.loc(c), not full,
+                   detail=None if not full else "`%s` and `%s` both run up to `%s`: the pair (i,j) is transformed when visited as (i,j) and again as (j,i), "
+                   "the cross terms are transformed twice and the matrix may stop being positive semi-definite" % (i1["n"], i2["n"], loops[i1["d"]]),
+                   key="C03s|%s|%s" % (f.name, short), nontrivial=full)
+    chk.floor("C03s", n, 1)
+
+
 def rule_i(prog, chk):
     """C03i - positions in the list of ACTIVE structures vs structure ranks (E5 kinds).  When a calculation mode carries a list of
     active structures, a loop variable bounded by the length of that list is a POSITION in the list; the structure it designates
@@ -639,7 +696,7 @@ def main(tier):
                 "Bessel ...), sums, anisotropy / rotation geometry and sill matrices are NOT decided.")
     cov = os.path.join(REPO, "src/Covariances")
     units = [os.path.join(cov, x) for x in sorted(os.listdir(cov)) if x.startswith("Cov") and x.endswith(".cpp")] + \
-            [os.path.join(cov, x) for x in ("ACovFunc.cpp", "ACov.cpp", "ACovAnisoList.cpp")]
+            [os.path.join(cov, x) for x in ("ACovFunc.cpp", "ACov.cpp", "ACovAnisoList.cpp")] + [os.path.join(REPO, "src/Model/Model.cpp")]
     if tier == "thorough":
         units = facts.all_units()
     d = extract(units, "C03-" + tier)
@@ -657,6 +714,7 @@ def main(tier):
     rule_h(prog, chk)
     rule_i(prog, chk)
     rule_g2(prog, chk)
+    rule_s(prog, chk)
     # C03o: the factories of a structure apply their setters in an order that keeps what was asked: a setter that converts with
     # the current third parameter (setRanges: practical range -> scale) is not followed by the setter that replaces the parameter
     # (rule O of C08, c08_order.py: transitive read / write sets of the setters called on one local object)
